@@ -1,27 +1,73 @@
 (* C09 — results do not depend on what was inspected before.  Statements only. *)
 From WI Require Import Lib.Base Model.State Proofs.State.
-From WI Require gen.Scan.
+From WI Require gen.Scan gen.SharedValues.
 
-(* T1: every package-level variable of the module, as scanned in the source now, is never
-   written after initialisation (directly, through a local alias, or through a parameter), or is
-   one of the two classified ones with exactly the classified write sites *)
+(* T1: every package-level variable of the module (and state of other packages that module
+   code sets), as scanned in the source now, has no site that may mutate it after
+   initialisation - assignment, ++/--, append/copy/sort/delete/clear, directly or through a
+   local alias, a parameter, a receiver or a function result; a method that is not declared in
+   the module called on it; a reference handed to a callee that is not known, by name, to only
+   read - or is one of the classified ones with exactly the classified sites *)
 Theorem C09_globals_benign : globals_benign gen.Scan.globals = true.
 Proof. exact globals_benign_now. Qed.
 Print Assumptions C09_globals_benign.
 
-(* the invariant holds in every reachable state: what the rest of the program can see of the
-   curve table never changes (only spare capacity does), for every capacity *)
+(* T1: the description values that are returned by value have nil slices in the running code
+   (an append to a copy's slice therefore never writes shared memory: go_append_cap0) *)
+Theorem C09_shared_values_nil : shared_nil gen.SharedValues.shared_values = true.
+Proof. exact shared_values_nil_now. Qed.
+Print Assumptions C09_shared_values_nil.
+
+Theorem C09_append_without_capacity_reallocates :
+  forall s ys, gcap s = 0%nat -> gslice_ok s = true -> fst (go_append s ys) = s.
+Proof. exact go_append_cap0. Qed.
+Print Assumptions C09_append_without_capacity_reallocates.
+
+(* MAIN: for every inventory gs that is benign, every way `describe` of turning inputs into
+   programs that respect it (they talk to package-level state only through reads, the
+   classified requests and the write sites gs lists), every well-formed initial state, every
+   finite history h and every input x: the description of x after h is its description in a
+   fresh process.  By induction over h with the invariant that such programs leave what can
+   be observed of the state unchanged (state_after_inv). *)
+Theorem C09_history_independent : forall gs box describe init h x,
+  globals_benign gs = true -> pstate_ok box init = true ->
+  (forall i, respects (writable gs) (describe i)) ->
+  description box describe (state_after box describe h init) x = description box describe init x.
+Proof. exact history_independent. Qed.
+Print Assumptions C09_history_independent.
+
+(* the invariant itself, in every reachable state *)
+Theorem C09_state_invariant : forall gs box describe, globals_benign gs = true ->
+  (forall i, respects (writable gs) (describe i)) ->
+  forall h init, pstate_ok box init = true ->
+  pview (state_after box describe h init) = pview init /\ pstate_ok box (state_after box describe h init) = true.
+Proof. exact state_after_inv. Qed.
+Print Assumptions C09_state_invariant.
+
+(* the hypotheses can be met, with the inventory and the shared values of the running code, by
+   a program that uses every benign kind of request - and that program does write the spare
+   capacity of the curve table *)
+Theorem C09_hypotheses_satisfiable :
+  pstate_ok [9; 9]%N sample_init = true
+  /\ (forall i, respects (writable gen.Scan.globals) (sample_describe i))
+  /\ description [9; 9]%N sample_describe sample_init [1; 2; 7; 8]%N = [1; 9; 9]%N
+  /\ backing (ce_basex (hd {| ce_name := []; ce_basex := {| backing := []; slen := 0 |}; ce_basey := [] |}
+                (ps_curves (state_after [9; 9]%N sample_describe [[1; 2; 7; 8]%N] sample_init)))) = [1; 2; 7; 8]%N.
+Proof. exact hypotheses_satisfiable. Qed.
+Print Assumptions C09_hypotheses_satisfiable.
+
+(* the curve table alone: what the rest of the program can see of it never changes (only spare
+   capacity does), for every capacity *)
 Theorem C09_invariant : forall init hist, state_ok init = true ->
   let st := fold_left (fun s rs => fst (step s rs)) hist init in
   view st = view init /\ state_ok st = true.
 Proof. exact history_invariant. Qed.
 Print Assumptions C09_invariant.
 
-(* over all finite histories: the answers an input gets are those it gets in a fresh process *)
-Theorem C09_history_independent : forall init hist rs, state_ok init = true ->
+Theorem C09_curve_answers_independent : forall init hist rs, state_ok init = true ->
   snd (step (fold_left (fun s x => fst (step s x)) hist init) rs) = snd (step init rs).
-Proof. exact history_independent. Qed.
-Print Assumptions C09_history_independent.
+Proof. exact curve_answers_independent. Qed.
+Print Assumptions C09_curve_answers_independent.
 
 Theorem C09_spare_capacity_really_written :
   let e := {| ce_name := [80%N]; ce_basex := {| backing := [1; 2; 0; 0]%N; slen := 2 |}; ce_basey := [7; 8]%N |} in
@@ -31,7 +77,33 @@ Theorem C09_spare_capacity_really_written :
 Proof. exact spare_capacity_written. Qed.
 Print Assumptions C09_spare_capacity_really_written.
 
+(* refutation witnesses.  (1) had the code kept the LONGER slice in the table (visible part
+   grows), answers would depend on history *)
 Theorem C09_visible_growth_refuted : exists e t,
   snd (bad_match e t) <> snd (bad_match (fst (bad_match e t)) t).
 Proof. exact visible_growth_would_break_it. Qed.
 Print Assumptions C09_visible_growth_refuted.
+
+(* (2) one write site outside the classification (Inspect remembering the table row that
+   matched the previous input) and the main theorem's conclusion fails: a 123-byte token that
+   two rows claim is a JWT in a fresh process and ASN.1 data after a DER file *)
+Theorem C09_unclassified_write_refuted :
+  globals_benign seeded_inventory = false
+  /\ (forall i, respects (writable seeded_inventory) (seeded_describe i))
+  /\ pstate_ok [] empty_state = true
+  /\ description [] seeded_describe empty_state [1%N] = bs "JSON Web Token (JWT)"
+  /\ description [] seeded_describe (state_after [] seeded_describe [[2%N]] empty_state) [1%N] = bs "unknown ASN.1 data".
+Proof. exact unclassified_write_breaks_it. Qed.
+Print Assumptions C09_unclassified_write_refuted.
+
+(* (3) the inventories of a memo in a sync.Map, a process-wide allowance decremented through a
+   pointer receiver, a mutex-guarded "last result" and a "last row" variable are not benign *)
+Theorem C09_seeded_inventories_rejected :
+  globals_benign [("internal/openpgp.checkedBindings"%string, false,
+      [("internal/openpgp:addUserID"%string, "method:sync.Map.Load"%string); ("internal/openpgp:addUserID"%string, "method:sync.Map.Store"%string)])] = false
+  /\ globals_benign [("internal/asn1struct.limits"%string, false, [("internal/asn1struct:*walker.parse"%string, "incdec"%string)])] = false
+  /\ globals_benign [("internal/util.lastDecoded"%string, true,
+      [("internal/util:recall"%string, "method:sync.Mutex.Lock"%string); ("internal/util:remember"%string, "assign"%string)])] = false
+  /\ globals_benign seeded_inventory = false.
+Proof. exact seeded_inventories_rejected. Qed.
+Print Assumptions C09_seeded_inventories_rejected.
